@@ -87,3 +87,35 @@ Proof.
   - right. exists n. split; reflexivity.
   - exfalso. lia.
 Qed.
+
+(* ---- the same path written as a comparison operand and as a query (existence test, function argument) selects the same nodes ---- *)
+Fixpoint sq_segs (l : list sqseg) : segments :=
+  match l with
+  | [] => GNil
+  | SqIndex i :: r => GCons (SegSel (SelIndex i)) (sq_segs r)
+  | SqName k :: r => GCons (SegSel (SelName k)) (sq_segs r)
+  end.
+
+Lemma sq_segs_singular l : singular (sq_segs l) = true.
+Proof. induction l as [|[i|k] l IH]; cbn [sq_segs singular singular_seg andb]; [reflexivity|exact IH|exact IH]. Qed.
+
+Lemma sq_steps_segments rf rs veq major root l : forall ns,
+  fold_left (fun ns s => flat_map (sq_step s) ns) l ns = r_segments rf rs veq major root (sq_segs l) ns.
+Proof. induction l as [|s l IH]; intros ns; [reflexivity|]. cbn [fold_left]. rewrite IH. destruct s; reflexivity. Qed.
+
+Theorem squery_as_segments rf rs veq major root l cur :
+  r_squery root (SqCur l) cur = r_segments rf rs veq major root (sq_segs l) [([], cur)]
+  /\ r_squery root (SqRoot l) cur = r_segments rf rs veq major root (sq_segs l) [([], root)].
+Proof. split; cbn [r_squery]; apply sq_steps_segments. Qed.
+
+(* the existence test @.path holds exactly when the operand @.path of a comparison is not Nothing *)
+Theorem existence_iff_operand rf rs veq major root l cur :
+  as_logical (r_test rf rs veq major root (TRel (sq_segs l)) cur) = true
+  <-> r_comparable rf rs veq major root (CSq (SqCur l)) cur <> None.
+Proof.
+  destruct (singular_operand rf rs veq major root (SqCur l) cur) as [[E1 E2]|[n [E1 E2]]]; rewrite E2;
+    destruct (squery_as_segments rf rs veq major root l cur) as [Es _]; rewrite E1 in Es;
+    change (r_test rf rs veq major root (TRel (sq_segs l)) cur)
+      with (RNodes (r_segments rf rs veq major root (sq_segs l) [([], cur)])); rewrite <- Es; cbn [as_logical]; split; intros H; try discriminate; try reflexivity.
+  exfalso. apply H. reflexivity.
+Qed.
